@@ -242,6 +242,8 @@ def _minit(spec, j):
       inp = X
     mode = t % 8
     seed = int(rng.randint(0, 10**6))
+    if seed % 6 == 0:
+      seed = 0      # the falsy integer seed must seed like any other
     rng.rand(2)
     ret_inv = bool((t // 8 + spec['i']) % 2)
     strict = bool((t // 16 + spec['i'] // 2) % 2) if mode not in (4, 6) \
@@ -323,6 +325,8 @@ def _cinit(spec, j):
     k = int(rng.randint(1, d + 1))
     mode = t % 9
     seed = int(rng.randint(0, 10**6))
+    if seed % 6 == 0:
+      seed = 0      # the falsy integer seed must seed like any other
     if mode in (0, 1):
       init = 'auto'
       if mode == 1:       # probe the rule's boundaries
